@@ -442,10 +442,11 @@ public:
 
         operator bool() {
             if (!this->await_ready()) {
-                return this->wait();
-            } else {
-                return this->await_resume();
+                //wait() of the generic awaiter would finish by its own await_resume(),
+                //which doesn't fetch the value. Only synchronize and fetch the value here
+                this->sync();
             }
+            return this->await_resume();
         }
         bool await_resume() {
             return this->_owner.check_next();
